@@ -10,34 +10,46 @@ TECH = "contract-based deductive verification: VCs generated from go/ssa of /rep
 
 # property -> (level text, level note)
 CLAIMED = {
- "C02": ("Every function of the index search path (bisection, equal range, the seven range extractors, comparison, Constrain, search value normalisation) carries a functional contract taken from the property statement (result = exactly the entries satisfying the operator, positionally); each contract is proved for all index contents, probes and lengths by discharging the verification conditions generated from the SSA of the current tree.",
-         "Unbounded proof of the index layer against spec predicates; trusted: SSA construction, SSA->SMT translation, solvers, the strict-weak-order axioms (justified by lemma obligations over the concrete order), regexp semantics (abstract), reflection-based field resolution (assumed contract). DB-level composition (Search.And/Or, full scan) is covered by DESIGN.md meta lemma where not yet under contract."),
- "C03": ("Satisfy is proved to reject iff another entry holds an equal value; insert/Delete/Update are proved to preserve the well-formedness of a field index including strictness of unique indexes and the id map; proofs hold for all contents.",
-         "Index-level proof; objIndex/DB composition partly assumed (see evidence assumptions)."),
- "C13": ("The range extractors are proved to return windows of the descending index in index order; Constrain is proved to rebuild a sorted index; so result order is the index order for all contents.",
-         "Iterator/collect arithmetic and reflect-based AssignIndex: see evidence (assumed or bounded)."),
- "C19": ("Zero-annotation panic-freedom obligations (index in range, slice bounds, nil dereference, type assertion, nil map store, division, explicit panic) are generated for every instruction of every function under contract and discharged for all inputs satisfying the stated preconditions; termination measures on loops and recursion.",
-         "Covers the functions under contract only; preconditions are established by callers' obligations; reflection-bodied functions are outside the verifier's reach."),
- "C20": ("Every range extractor is proved to return either a fresh array or a view of the index, objIndex-level copy makes results fresh; index mutators are proved to write only their own backing array or fresh arrays (modifies-at frames).",
-         "Aliasing is first-class in the memory model (backing array + offset); history-level statement by the meta lemma fresh + framed => immutable."),
+ "C01": ("Every read and write path under contract (Get, GetByUUID, Exist, Count, All, AssignAll, Iterator, iterator.next, InsertOrUpdate, InsertOrUpdateMany, Delete, DeleteObjects, DeleteAll, Search.Delete and their private helpers) is proved, for all inputs and configurations, to preserve the representation invariant wfDB (index, files, cache and pending writes agree: K1-K6) and to transform the abstract views uuids / value(db,s,u) as the sequential map specification says (stored, others unchanged, not-found iff not indexed, uuid kept or fresh).",
+         "Unbounded proof per function over a ghost file system; the history-level statement follows by induction over calls (DESIGN.md section 3). Trusted: SSA->SMT translation and solvers; assumed contracts of os/json/CloneObject/loadSchema (a directory written by a crash-free history loads coherently); uuid.New freshness; 'single-collection' assume in the mutators. InsertOrUpdateBulk (channels) is not under contract."),
+ "C02": ("The whole index layer (bisection, equal range, seven extractors, Constrain, regex scan) plus objIndex.search, the full scan searchAll, DB.search, DB.Search, Search.And, Search.Or and Search.Delete are proved against one specification: the result denotes all and only the stored objects whose normalised field value satisfies the operator (sound, complete, duplicate free), And = intersection with the receiver, Or = duplicate-free union, Len = len(fields), Delete removes exactly the matched objects.",
+         "Unbounded, for all index contents, probes, operators and both search paths. Trusted/assumed: reflection-based field resolution (fieldByName), regexp semantics (uninterpreted rmatch), Schema.prepare (case canonicalisation of the probe), the strict weak order axioms of klt (proved for the concrete order)."),
+ "C03": ("Satisfy is proved to reject iff another entry holds an equal value; satisfyAll is proved to run before any mutation; Insert/Delete/Update are proved to preserve strict uniqueness and the id maps; the id counter never decreases.",
+         "Index and objIndex level proofs for all contents; the reopen part rests on loadSchema (assumed) and the exact int64 decoders (fix a125b20)."),
+ "C04": ("Every mutating call under contract is proved to leave the schema file committed (committed(db,s)) in synchronous mode; Close and flushAllAndCommit are proved to flush every pending write and commit; deleteObjects reports a failed commit.",
+         "The round trip of schema.json as a whole is the assumed contract of loadSchema; the per-value decoders were repaired (a125b20) but are not yet under contract."),
+ "C05": ("Storage-error clauses on insertOrUpdate/delete/writeObject over the ghost file system (a failed step leaves either the old state or a state Control reports), temp+rename writes (fix 90ff679).",
+         "One open known finding (D19, see known_findings.json). Crash points inside writeReader (trusted) and media-level tearing are outside the model."),
+ "C06": ("insertOrUpdate, InsertOrUpdate and InsertOrUpdateMany are proved to leave every view (index, files, cache, pending) unchanged when they return a non-storage error, for all inputs and configurations.",
+         "Storage-error half: detectable-or-unchanged clause with one open known finding (D19)."),
+ "C07": ("InsertOrUpdateMany: the validation loop is proved not to touch the live views; on a non-storage error nothing changed and n == 0; on success n == len(objects) and every object went through the hooks.",
+         "The lemma 'no insertion fails after validation succeeded' (many.no-late-conflict) is assumed, not machine checked. InsertOrUpdateBulk (channel producer) is not under contract."),
+ "C08": ("Lock typestate contracts: every function under contract states how it needs the handle lock (H), every shared access happens in a function requiring it, every exported call under contract is proved to be exactly one critical section (ACQ_H == old+1) including DeleteAll and Search.Delete (fix c76677a), the flusher reads settings under the lock.",
+         "Interleavings are not enumerated: lockset + single critical section => linearizable is a meta argument (DESIGN.md). Exported functions not yet under contract: Create, Repair, Drop, Control, Flush*, InsertOrUpdateBulk, AssignIndex, Schema."),
+ "C09": ("Non-re-entrancy and lock order (H > HS > HM > SL) are preconditions of every lock operation and are proved at every call site under contract; nothing blocking (time.Sleep) is called with a lock held; loops and recursion under contract carry decreases clauses.",
+         "Termination of user hooks, the OS and regexp is assumed; loops without a decreases clause are listed in the evidence."),
+ "C10": ("With async on, an accepted write is proved visible (pending and cached) at return; delete removes the pending entry and the file; Close/flushAllAndCommit post-conditions; the flusher closure is proved to run until the context is cancelled and to flush when due; the flusher is started on every path that enables async.",
+         "The real-time half (reaches disk once the timeout elapses) is liveness: not decidable by contracts. objectMap.flush / flushAll bodies are assumed contracts."),
+ "C11": ("objIndex.control, Schema.control and uuidsFromDir are proved: Control succeeds iff the indexed identifiers and the uuid-shaped file names agree and every field index is ordered and holds exactly the indexed ids.",
+         "Repair and DB.Control are not under contract yet; os.ReadDir assumed."),
+ "C12": ("The DB-level contracts mention only abstract views and are proved with the configuration (cache, compression, async, extension, lower-case names, indexed or not) as free symbolic inputs: one specification for the indexed and the full-scan search including error classes, Exist sees pending writes.",
+         "Same trusted base as C01/C02."),
+ "C13": ("Extractors return windows of the descending index in index order; Constrain rebuilds a sorted index; objIndex.search/DB.search results are non-increasing for indexed fields; collect/one/Limit/Reverse index arithmetic.",
+         "assignIndex (reflection) is not under contract."),
+ "C14": ("Everything stored in or returned from the cache and the pending store is proved to be a CloneObject result distinct from the caller's object (store discipline).",
+         "CloneObject (cloneValue: reflection) itself is an assumed contract: deep-copy correctness over all shapes is not decided."),
+ "C15": ("Hook typestate: on the single and batch insertion paths the object is proved to go raw -> Transform -> schema transform -> Validate before anything is indexed or stored, and a validation error is returned as such.",
+         "User hook bodies are arbitrary within their contract; InsertOrUpdateBulk not under contract."),
+ "C19": ("Zero-annotation panic-freedom obligations (index, slice bounds, nil dereference, type assertion, nil map store, division, explicit panic, integer overflow) on every instruction of every function under contract, plus error-class clauses for search arguments (unknown field/operator, mistyped value, invalid pattern), uuidExt/uuidsFromDir and control.",
+         "Covers functions under contract; the JSON decoders (UnmarshalJSON) are not yet under contract; reflection-bodied functions are assumed."),
+ "C20": ("Every search result is proved to be a fresh array (never a view of the index); every index mutator up to the exported calls is proved to write element memory only in (old) index arrays or fresh arrays (elemsFramed); And/Or leave the receiver untouched; a deleted object's id resolves to no object (the empty identifier is never indexed).",
+         "History-level statement by the meta lemma fresh + framed => immutable across later calls."),
 }
 
 NOT_APPLICABLE = {
- "C01": "contracts on the DB orchestration layer (ghost file system / cache / pending views) not completed yet",
- "C04": "round-trip lemmas and commit clauses not completed yet",
- "C05": "crash-invariant obligations over the ghost file system not completed yet",
- "C06": "DB-level no-trace contracts not completed yet",
- "C07": "batch loop contracts not completed yet",
- "C08": "lock typestate / lockset contracts not completed yet",
- "C09": "lock order / non-re-entrancy contracts not completed yet",
- "C10": "async-write safety contracts not completed yet; the timing half is liveness and cannot be a contract",
- "C11": "Control/Repair contracts not completed yet",
- "C12": "configuration-free form of the DB-level contracts not completed yet",
- "C14": "clone discipline contracts not completed yet; cloneValue itself is reflection (bounded only)",
- "C15": "hook typestate contracts not completed yet",
- "C16": "transform contracts not completed yet",
- "C17": "schema guard contracts not completed yet",
- "C18": "layout contracts not completed yet; cross-release corpus half is not a contract",
+ "C16": "the canonicalisation itself is done by reflection-bodied code (Constraints.transform / recursiveTransform) and strings.ToUpper/ToLower, which no contract within reach can express; what contracts do decide (the probe is prepared by the same function before either search path; the schema transform precedes Validate, index and store) is proved under C02/C12/C15 with Schema.prepare/transform as assumed contracts",
+ "C17": "the compatibility predicates (FieldsCompatibleWith/CompatibleWith) and the read-only frames after a schema error are proved, but Create, Schema.isCompatibleWith/update and FieldDescriptors (reflection) are not under contract: the property is not decided yet",
+ "C18": "the naming functions are proved against the layout specification (under C01), but the primary half - a directory written by the pinned release opens identically - is a cross-build comparison over a corpus, which is not a contract on the current code",
 }
 
 def main():
